@@ -1,5 +1,6 @@
 import OhkamiModel.P.Hdrs
 import OhkamiModel.GenReqHeaders
+import OhkamiModel.GenFieldName
 /-! C02 model: `Request::read` (ohkami/src/request/mod.rs, as repaired) over the bytes of the first read, byte_reader style. -/
 namespace Ohkami.Http
 open Ohkami.P
@@ -69,9 +70,9 @@ def appendCustom (l : List (Bytes × Bytes)) (n : Bytes) (v : Bytes) : List (Byt
   | some i => l.set i (n, ((l[i]?).map (·.2)).getD [] ++ joinSep ++ v)
   | none => l ++ [(n, v)]
 
-/-- a field name is a token (RFC 9110 5.1): `tchar`s only, at least one -/
-def isTchar (b : UInt8) : Bool :=
-  b == 33 || (35 ≤ b && b ≤ 39) || b == 42 || b == 43 || b == 45 || b == 46 || (48 ≤ b && b ≤ 57) || (65 ≤ b && b ≤ 90) || (94 ≤ b && b ≤ 122) || b == 124 || b == 126
+/-- the bytes of a field name: the set the header loop of `Request::read` checks, REGENERATED from the source (`GenFieldName`);
+    `tchar_is_rfc9110` (Proofs/C02) shows it is exactly the `tchar` of RFC 9110 5.6.2 -/
+def isTchar (b : UInt8) : Bool := Gen.fieldNameRanges.any fun r => r.1 ≤ b.toNat && b.toNat ≤ r.2
 def isName (k : Bytes) : Bool := !k.isEmpty && k.all isTchar
 
 -- the header loop of `read`
